@@ -31,6 +31,8 @@ def obligations(tier):
                         stubs=["network_connect/netbuf_* -> recording models", "strlen/stpcpy/strcmp -> length from object size", "callback_read_header -> stub"]))
     obs.append(dict(name="findheader-first-exact-match", harness="find.c", entry="h_findheader", unwind=8, unwindset=["strcmp.0:5"], backends=["cadical"], timeout=to,
                     claim="http_findheader: value of the first header whose name equals the key exactly, NULL if none (also for an empty list with a NULL array)", bounds="<= 3 headers, names and key of 0..2 characters", stubs=["strcmp: CBMC model"]))
+    obs.append(dict(name="http-request-forwards", harness="find.c", entry="h_http_request", replace=["http_request2:stub_request2"], unwind=8, backends=["cadical"], timeout=to,
+                    claim="http_request forwards every argument unchanged to http_request2 with no TLS host name and passes the result back", bounds="none", stubs=["http_request2 -> recording stub (own obligations: request-bytes-*)"]))
     return obs
 SELFTESTS = [dict(name="str-models-vs-glibc", srcs=["/verif/models/selftest_str.c"], cflags=["-I/verif/models"], what="strcspn/strspn/strstr/stpcpy/sscanf(HTTP status line) models equal glibc on 2,000,000 strings")]
 TRUSTED = ["CBMC 6.11 C semantics", "cadical", "the reference header parser in harness/C08/hdr.c (ref_parse)", "C models of sscanf/strcspn/strspn/strstr"]
